@@ -348,12 +348,15 @@ type checker struct {
 	hdrOps []string    // c11.hdr ops, compared after rendering
 	hdrImp [][]hdrRow
 	worst  map[string]float64 // max rank distance / n per distribution
+	mc     *mergeChecker      // c11.add / c11.process (compression pass)
+	maxCen int                // largest centroid count seen on vegeta's estimator (maxProcessed is 200)
 }
 
 func (k *checker) flush(force bool) {
 	if !force && len(k.qst.Ops) < 200 {
 		return
 	}
+	k.mc.flush(k.c.Driver, k.s, true)
 	k.qst.Diff(k.c.Driver, k.s)
 	k.cst.Diff(k.c.Driver, k.s)
 	k.clst.Diff(k.c.Driver, k.s)
@@ -414,10 +417,44 @@ func (k *checker) check(sp spec, tag string) {
 
 	var m vegeta.Metrics
 	if p, msg := kit.Recover(func() {
-		for _, l := range lats {
-			m.Add(&vegeta.Result{Code: 200, Latency: time.Duration(l)})
+		// compression pass: watch the estimator vegeta owns; check the Adds that trigger process
+		// (all of them for small sets, the first two, some random ones and the last otherwise),
+		// one Add that does not, and the process() that the first Quantile of Close starts with
+		var rd tdReader
+		have := false
+		maxU, triggers := 0, 0
+		plain := -1
+		if n > 1 {
+			plain = 1 + k.r.Pick(n-1)
 		}
+		for i, l := range lats {
+			var pre full
+			watch := false
+			if have {
+				if rd.unprocessedLen() >= maxU { // this Add runs process
+					triggers++
+					watch = triggers <= 2 || n <= 4000 || k.r.Chance(0.05) || n-i <= maxU+1
+				} else if i == plain {
+					watch = true
+				}
+				if watch {
+					pre = rd.read()
+				}
+			}
+			m.Add(&vegeta.Result{Code: 200, Latency: time.Duration(l)})
+			if !have {
+				rd = newReader(digestOf(&m))
+				maxU = rd.read().maxU
+				have = true
+			}
+			if watch {
+				k.mc.addOp(s, pre, float64(l), 1, rd.read(), 100, fmt.Sprint(repl))
+			}
+		}
+		preClose := rd.read()
 		m.Close()
+		// Close calls Quantile four times; the state after the first leading process() is the final one
+		k.mc.procOp(s, preClose, rd.read(), 100, fmt.Sprint(repl))
 	}); p {
 		s.Violate(kit.Violation{Kind: "metrics_panic", What: "Metrics.Add/Close panicked: " + msg, Input: repl})
 		return
@@ -449,6 +486,9 @@ func (k *checker) check(sp spec, tag string) {
 		s.Count("centroids:51..100")
 	default:
 		s.Count("centroids:>100")
+	}
+	if len(st.means) > k.maxCen {
+		k.maxCen = len(st.means)
 	}
 	if hasZero {
 		s.Count("has_zero_latency")
@@ -628,6 +668,7 @@ func (k *checker) check(sp spec, tag string) {
 			}
 		}
 	}
+	k.mc.flush(k.c.Driver, k.s, false)
 	k.flush(false)
 }
 
@@ -668,8 +709,9 @@ func runC11(c *run.Ctx, s *kit.Summary) {
 	s.Rule = "latency multisets of 1..20000 (quick) / 1..100000 (thorough) samples, sizes biased to 1..5, ≤100, around the first compression passes (800/801, 1600/1601) and the maximum; " +
 		"uniform (incl. narrow ranges with many ties), log-normal, constant, few-valued (2..5 values), bimodal with gaps of 3..12 orders of magnitude (half of them with the mode boundary within ±3% of a reported percentile), " +
 		"3% with zero latencies; arrival orders random / sorted / reverse-sorted; per set ~130 quantile arguments (Close's four, the HDR ladder, 0, 1, segment borders ± 1 ulp, tails, out of range, NaN); " +
+		"compression pass: on vegeta's own estimator the Adds that trigger process (all for n ≤ 4000, else the first two, 5% and the last), one plain Add and the process() at Close; plus stand-alone digests with compression 1..20 (tiny buffers, incl. the len(processed) > maxProcessed trigger, weights 1..4, NaN samples) with EVERY Add checked; " +
 		"non-trivial = distinct data set with ≥2 samples and ≥2 distinct values"
-	k := &checker{c: c, s: s, r: r, worst: map[string]float64{},
+	k := &checker{c: c, s: s, r: r, worst: map[string]float64{}, mc: newMergeChecker(),
 		qst: &kit.Stream{Name: "c11.quantile"}, cst: &kit.Stream{Name: "c11.cum"}, clst: &kit.Stream{Name: "c11.close"}}
 	if c.Replay != "" {
 		sp, ok := loadSpec(c.Replay)
@@ -694,10 +736,16 @@ func runC11(c *run.Ctx, s *kit.Summary) {
 	for i := 0; i < c.N(500, 10000); i++ {
 		k.check(genSpec(r, maxN), "g")
 	}
+	// stand-alone digests with tiny buffers: every Add and the final process against the model
+	for i := 0; i < c.N(150, 3000); i++ {
+		directDigest(r, s, k.mc, "d")
+		k.mc.flush(c.Driver, s, false)
+	}
 	k.flush(true)
 	worst := map[string]interface{}{}
 	for d, w := range k.worst {
 		worst[d] = fmt.Sprintf("%.3f%% of n", 100*w)
 	}
 	s.Extra["worst_rank_distance_beyond_window_by_distribution"] = worst
+	s.Extra["max_centroids_after_process (maxProcessed = 200)"] = k.maxCen
 }
